@@ -161,6 +161,11 @@ def gen_disk(rng):
     if mode == "sysfs" and era in ("k26p", "k24"):
         era = "k26"
     devs = []
+    if mode == "procfs" and rng.random() < 0.012:
+        # a big LVM / multipath host: the table is longer than one 32 KiB read buffer
+        for i in range(rng.choice([340, 420, 700])):
+            devs.append(dict(name="dm-%d" % i, whole=True, major=253, minor=i, v=_distinct(rng, 17)))
+        return dict(mode=mode, era=era, devs=devs)
     if mode != "none" and rng.random() > 0.06:
         nd = rng.choice([1, 1, 2, 2, 3, 4, 6, 12])
         names = set()
@@ -610,6 +615,27 @@ def run_case(case, acc):
                         check_disk(case, ps, acc, v2)
                     acc.count("sysfs_changes_between_calls")
                     viols.extend((m + ":after_sysfs_change", f"[{case['hotplug']} {phase} in /sys/block] " + d_) for m, d_ in v2)
+            # the default form (nowrap=True) over two successive tables: an interface goes away, nothing else moves - the total
+            # is the sum over the interfaces listed now (no counter went backwards, so there is nothing to add)
+            ifs = case["net"]["ifaces"]
+            if len(ifs) >= 2 and harness.chash(case)[-1] in "0123":
+                ps.net_io_counters.cache_clear()
+                try:
+                    ps.net_io_counters()
+                    gone_nic = max(ifs, key=lambda it: sum(it["v"]))
+                    net2 = dict(case["net"], ifaces=[it for it in ifs if it is not gone_nic])
+                    fs.put("net/dev", render_net(net2))
+                    tot2 = ps.net_io_counters()
+                    want2 = tuple(sum(it["v"][NET_COL[f]] for it in net2["ifaces"]) for f in NET_FIELDS)
+                    acc.count("totals_after_an_interface_went_away")
+                    if tot2 is None or tuple(tot2) != want2:
+                        viols.append(("net_total_wrong:after_interface_went_away",
+                                      f"net_io_counters() after {gone_nic['name']} left the table: got {tot2!r} want {want2}"))
+                except Exception as e:  # noqa: BLE001
+                    viols.append((f"net_total_exception:{type(e).__name__}:after_interface_went_away", repr(e)))
+                finally:
+                    fs.put("net/dev", render_net(case["net"]))
+                    ps.net_io_counters.cache_clear()
             check_usage(case, ps, acc, viols)
     finally:
         if os.path.isdir(root):
